@@ -55,8 +55,11 @@ TIGHT = 100.0
 
 def strategy(tier):
     base = rc.stack_strategy(1, 4, surface='no_dynamic_liquid', freq_log=(-5.5, -3.0), solve_for_max=4)
-    return st.tuples(base, st.floats(-2.0, 2.0), st.sampled_from(['RK45', 'DOP853', 'RK23'])).map(
-        lambda t: dict(t[0], loga=t[1], alt_method=t[2]))
+    # iface_eps > 0: every interface is sampled on both sides (last slice of the lower layer at r_i, first slice of the upper
+    # layer at r_i (1 + eps)) - the usual way to tabulate a discontinuous profile
+    return st.tuples(base, st.floats(-2.0, 2.0), st.sampled_from(['RK45', 'DOP853', 'RK23']),
+                     st.sampled_from([0.0, 0.0, 1e-12, 1e-9, 1e-6])).map(
+        lambda t: dict(t[0], loga=t[1], alt_method=t[2], iface_eps=t[3]))
 
 
 def in_domain(case):
@@ -81,7 +84,7 @@ def fixed_cases(tier):
 
 
 def required_labels(tier):
-    return ['R1', 'R2', 'R3', 'R4', 'R5', 'R6', 'layers:2+', 'has_liquid', 'static_liquid_surface']
+    return ['R1', 'R2', 'R3', 'R4', 'R5', 'R6', 'layers:2+', 'has_liquid', 'static_liquid_surface', 'interfaces_sampled_twice']
 
 
 def _refine(A):
@@ -123,6 +126,8 @@ def evaluate(case):
               'surface:' + rc.kind_name(ks[-1])]
     if any(k[0] == 'liquid' for k in ks):
         labels.append('has_liquid')
+    if spec.get('iface_eps', 0.0) > 0.0 and len(ks) > 1:
+        labels.append('interfaces_sampled_twice')
     if any(k[0] == 'liquid' and not k[1] for k in ks):
         labels.append('has_dynamic_liquid')
     sf = list(case['solve_for'])
@@ -258,7 +263,13 @@ def evaluate(case):
                 lhs = L6[1][0]
                 rhs = L6[0][0] - L6[0][1]
                 d = abs(lhs - rhs)
-                c.check(d <= TOL0 + 100.0 * d6, {'clause': 'R6'},
+                # Takeuchi starting vectors of a solid core are not exact solutions (compiled defect KF-C04-takeuchi-y6: they do
+                # not even span a Lagrangian subspace of the reciprocity form), which breaks reciprocity by O(r0/R)^(2l+1)-ish
+                # amounts that grow with w^2: the signature names family, core type and start-radius class so that only this
+                # combination can be attributed to that finding
+                fam6 = 'takeuchi' if not spec['opts']['use_kamata'] and not (ks[0][0] == 'solid' and ks[0][2]) else 'kamata'
+                c.check(d <= TOL0 + 100.0 * d6, {'clause': 'R6', 'family': fam6, 'core': ks[0][0],
+                                                 'r0': 'large_r0' if spec['r0_frac'] > 0.03 else 'small_r0'},
                         'k_load %r vs k_tidal - h_tidal %r, |diff| %.3e tol %.3e' % (complex(lhs), complex(rhs), d, TOL0 + 100.0 * d6))
     c.nontrivial = len(ks) >= 2 and ('R1' in c.labels or 'R2' in c.labels)
     return c.result()
